@@ -146,7 +146,12 @@ def _acked_ok(a: dict[str, Any], b: dict[str, Any],
                     # the in-flight command may or may not have taken the
                     # message away - but if it is still served here, under
                     # the same UIDVALIDITY, it must be under its own UID
-                    if rbox['uidvalidity'] == abox['uidvalidity']:
+                    # (only when the mailbox held a single copy of it: two
+                    # copies of one message are told apart by UID alone)
+                    copies = sum(1 for v in abox['messages'].values()
+                                 if v[0] == vid)
+                    if rbox['uidvalidity'] == abox['uidvalidity'] \
+                            and copies == 1:
                         other = [u for u, v in rbox['messages'].items()
                                  if v[0] == vid and u != uid]
                         if other:
